@@ -55,7 +55,7 @@ fn offdiag(rng: &mut Rng, n: usize, sym: bool) -> Vec<Vec<f64>> {
 
 /// system classes of every kind (C08 makes no demand unless the solver answers Ok)
 pub fn gen_any(rng: &mut Rng, n: usize) -> Sys {
-    match rng.below(8) {
+    match rng.below(10) {
         0 => { // SPD: symmetric strictly dominant, positive diagonal
             let mut d = offdiag(rng, n, true); let m = rng.logpos(1e-3, 2.0);
             for i in 0..n { let s: f64 = d[i].iter().map(|v| v.abs()).sum(); d[i][i] = s + m; } from_dense(&d, "spd-dominant") }
@@ -69,6 +69,10 @@ pub fn gen_any(rng: &mut Rng, n: usize) -> Sys {
         5 => { // badly row-scaled dominant
             let mut d = offdiag(rng, n, false); for i in 0..n { let s: f64 = d[i].iter().map(|v| v.abs()).sum(); d[i][i] = s + 0.5; let sc = 2f64.powi(rng.int(-20, 20) as i32); for v in d[i].iter_mut() { *v *= sc; } } from_dense(&d, "row-scaled") }
         6 => { let sy = rng.bool(); let mut d = offdiag(rng, n, sy); for i in 0..n { let s: f64 = d[i].iter().map(|v| v.abs()).sum(); d[i][i] = s * (1.0 + 1e-6) + 1e-9; } from_dense(&d, "nearly-singular-dominant") }
+        8 => { // small-integer systems of low order: exact breakdowns (rho == 0, p.Ap == 0) happen here, never on float-random data
+            let mut d = vec![vec![0.0; n.min(6)]; n.min(6)];
+            for row in d.iter_mut() { for v in row.iter_mut() { *v = rng.int(-3, 3) as f64; } }
+            from_dense(&d, "small-integer") }
         _ => { // exactly singular: zero row/column or duplicated row
             let mut d = offdiag(rng, n, false); for i in 0..n { d[i][i] = 1.0 + rng.unit(); }
             let k = rng.usize(0, n - 1);
@@ -125,13 +129,15 @@ pub fn judge_ok(sv: Solver, sys: &Sys, d: &Vec<Vec<f64>>, a: &Sparse<f64>, b: &[
 fn one_system(st: &mut Stats, rng: &mut Rng) {
     let n = if rng.chance(0.25) { rng.usize(1, 4) } else { rng.usize(1, 60) };
     let sys = gen_any(rng, n);
+    let n = sys.n;
     let d = sys.dense();
     let a = match catch(|| sys.sparse(rng)) { Outcome::Ok(a) => a, _ => return };
-    let bkind = rng.below(8);
-    let b: Vec<f64> = match bkind { 0 => vec![0.0; n], 1 => (0..n).map(|_| rng.sym() * 1e6).collect(), 2 => (0..n).map(|_| rng.sym() * 1e-6).collect(), 3 => { let sc = *rng.pick(&[1e-18, 1e-40, 1e40, 1e-80]); (0..n).map(|_| rng.sym() * sc).collect() } _ => (0..n).map(|_| rng.sym()).collect() };
+    let bkind = if sys.class == "small-integer" { 9 } else { rng.below(8) };
+    let b: Vec<f64> = match bkind { 0 => vec![0.0; n], 1 => (0..n).map(|_| rng.sym() * 1e6).collect(), 2 => (0..n).map(|_| rng.sym() * 1e-6).collect(), 3 => { let sc = *rng.pick(&[1e-18, 1e-40, 1e40, 1e-80, 2f64.powi(-520), 2f64.powi(-500), 2f64.powi(-540), 2f64.powi(-528), 1e100]); (0..n).map(|_| rng.sym() * sc).collect() } 9 => (0..n).map(|_| rng.int(-3, 3) as f64).collect(), _ => (0..n).map(|_| rng.sym()).collect() };
     let x0: Vec<f64> = match rng.below(4) { 0 | 1 => vec![0.0; n], 2 => (0..n).map(|_| rng.sym()).collect(), _ => (0..n).map(|_| rng.sym() * 1e3).collect() };
     let tol = rng.logpos(1e-12, 1e-2);
-    let budget = *rng.pick(&[0usize, 1, 2, 3, 4, n, 3 * n + 10, 20 * n + 50]);
+    let budget = if sys.class == "small-integer" { rng.usize(0, 2 * n + 2) } else { *rng.pick(&[0usize, 1, 2, 3, 4, n, 3 * n + 10, 20 * n + 50]) };
+    let x0: Vec<f64> = if sys.class == "small-integer" && rng.bool() { vec![0.0; n] } else { x0 };
     let bv = Vector::create(b.clone());
     for sv in SOLVERS {
         st.next_case();
@@ -153,6 +159,12 @@ fn one_system(st: &mut Stats, rng: &mut Rng) {
             let j = judge_ok(sv, &sys, &d, &a, &b, &x0, &x.vec, it, tol);
             st.max(&format!("excess_units:{}", sv.name()), j.excess_units);
             if j.violated { st.violation(&format!("C08:{}:ok-but-unsolved", sv.name()), format!("Ok({}): {}; x={:?}; {}", it, j.detail, x.vec, desc())); }
+            // metamorphic: the budget only bounds the loop, so re-running with max_iter == it must give the same Ok(it) and x
+            if it > 0 && it < budget && rng.chance(0.3) {
+                let mut x4 = Vector::create(x0.clone());
+                let r4 = catch(|| sv.call(&a, &bv, &mut x4, it, tol));
+                if !matches!(r4, Outcome::Ok(Ok(k)) if k == it) || bits(&x4.vec) != bits(&x.vec) { st.violation(&format!("C08:{}:exact-budget-differs", sv.name()), format!("with max_iter = {} (the count reported under max_iter = {}) the answer is {:?}; {}", it, budget, r4, desc())); }
+            }
             // metamorphic: a larger budget does not change an Ok answer
             if it > 0 && rng.chance(0.2) {
                 let mut x3 = Vector::create(x0.clone());
@@ -170,7 +182,7 @@ pub fn run(ctx: &Ctx) -> Report {
     let units = ctx.vol(6000, 450_000);
     let stats = par_run(ctx, TAG, units, |_u, rng, st| { for _ in 0..4 { one_system(st, rng); } });
     let mut rep = Report::new(stats,
-        "random square sparse systems of order 1..60 of 8 kinds (SPD dominant, SPD Gram, nonsymmetric dominant, nonsymmetric general, symmetric indefinite, row-scaled 2^+-20, nearly singular, exactly singular), rhs zero/1e+-6/1e-18/1e+-40/1e-80/O(1), x0 zero/random/1e3*random, tol log-uniform 1e-12..1e-2, budgets {0..4,n,3n+10,20n+50}; all five solver variants on each. Judged: no panic, determinism, zero budget leaves x bit-identical, and whenever Ok(it): it<=max_iter, x finite, true residual (double-double, dense copy) <= tol + 256 (QMR: 16384) drift units u*(it+1)*(||A||_F*max_k||x_k||+||b||)/||b||* (max over iterates by budget replay when needed). Non-trivial: an Ok outcome with it>=1 on n>=2; distinct = distinct (solver,class,entries,tol) hashes");
+        "random square sparse systems of order 1..60 of 9 kinds (small-integer low-order systems where exact breakdowns occur, SPD dominant, SPD Gram, nonsymmetric dominant, nonsymmetric general, symmetric indefinite, row-scaled 2^+-20, nearly singular, exactly singular), rhs zero/1e+-6/1e-18/1e+-40/1e-80/O(1), x0 zero/random/1e3*random, tol log-uniform 1e-12..1e-2, budgets {0..4,n,3n+10,20n+50}; all five solver variants on each. Judged: no panic, determinism, zero budget leaves x bit-identical, and whenever Ok(it): it<=max_iter, x finite, true residual (double-double, dense copy) <= tol + 256 (QMR: 16384) drift units u*(it+1)*(||A||_F*max_k||x_k||+||b||)/||b||* (max over iterates by budget replay when needed). Non-trivial: an Ok outcome with it>=1 on n>=2; distinct = distinct (solver,class,entries,tol) hashes");
     rep.assumptions = vec!["drift allowance 256 units (QMR 16384) fixed; measured worst excess on the unchanged tree is recorded under maxima excess_units:* (2.3 / 58 over 3.6 M outcomes)".into(), "nothing is demanded when the solver answers Err (that half is C09)".into()];
     rep.min_nontrivial = 300;
     rep
